@@ -103,6 +103,10 @@ func init() {
 				Upstreams:      []options.Upstream{{ID: "root", Path: "/", URI: "U:root"}, {ID: "files", Path: "/files/", URI: "file://" + dir}}}
 			lk.cfg(&cfg)
 			e, err := newEnv(c, cfg)
+			for attempt := 0; err != nil && attempt < 3; attempt++ {
+				lk.cfg(&cfg) // another process may have taken the port between probing and listening: pick a new one
+				e, err = newEnv(c, cfg)
+			}
 			if err != nil {
 				c.violation("HARNESS", "env ("+lk.name+"): "+err.Error(), nil)
 				continue
@@ -136,7 +140,7 @@ func init() {
 			}
 			// wait for the listener
 			up := false
-			for i := 0; i < 100 && !up; i++ {
+			for i := 0; i < 400 && !up; i++ {
 				if a := realDo(cl, "GET", base+"/ping", tHost, "", nil, ""); a.err == nil && a.status == 200 {
 					up = true
 				} else {
